@@ -41,6 +41,9 @@ func runC13(c *Ctx) {
 	c12Writer(c)
 	c12Helpers(c)
 	c18Flate(c)
+	// RSV1 on a later fragment of a message that is being skipped surfaces from Discard
+	readerDiscardRules(c, "C13")
+	readerReadRules(c, "C13")
 }
 
 func c13RsvLayout(c *Ctx) {
